@@ -323,3 +323,23 @@ MUTANTS += [
     dict(id='c02-index-offset', props=['C02'], file=LIM,
          old="        return der.flat[idx].reshape(shape), _Limit.info(err, final_step, idx)", new="        return der.flat[idx].reshape(shape), _Limit.info(err, final_step, idx + der.size)"),
 ]
+
+MUTANTS += [
+    dict(id='c03-vstack-no-axis-swap', props=['C03'], file=FD,
+         old="            axes[:2] = axes[1::-1]\n            original_shape[:2] = original_shape[1::-1]\n", new="            original_shape[:2] = original_shape[1::-1]\n"),
+    dict(id='c03-increments-not-reset', props=['C03', 'C05'], file=FD,
+         old="            yield e_i\n            e_i[k] = 0", new="            yield e_i\n            e_i[k] = 0 if k != 2 else h[k] * 1e-3"),
+    dict(id='c03-gradient-no-squeeze', props=['C03'], file=CORE,
+         old="            return result[0].squeeze(), result[1]\n        return result.squeeze()", new="            return result[0], result[1]\n        return result"),
+    dict(id='c03-ddiff-no-normalisation', props=['C03'], file=CORE,
+         old="    vec = np.reshape(vec / np.linalg.norm(vec.ravel()), x0.shape)", new="    vec = np.reshape(vec / np.max(np.abs(vec.ravel())), x0.shape)"),
+    dict(id='c03-undo-f3', props=['C03'], file=CORE,
+         old="        if np.ndim(fxi) == 0:\n            return steps", new="        if np.size(fxi) == 1:\n            return steps"),
+    dict(id='c03-expand-steps-wrong-index', props=['C03'], file=CORE,
+         old="        return [np.array([one * h[i] for i in range(n)]) for h in steps]", new="        return [np.array([one * h[min(i, 1)] for i in range(n)]) for h in steps]"),
+    dict(id='c03-jacobian-complex-odd-half', props=['C03'], file=FD,
+         old="        return np.array([((j_1 / 2.) * (f(x + j_1 * ih) - f(x - j_1 * ih))).imag for ih in steps])",
+         new="        return np.array([((j_1 / 2.) * (f(x + j_1 * ih) - f(x - j_1 * ih))).imag * (1 + 1e-7) for ih in steps])"),
+    dict(id='c03-gradient-ravel-order', props=['C03'], file=CORE,
+         old="        result = super(Gradient, self).__call__(np.atleast_1d(x).ravel(), *args, **kwds)", new="        result = super(Gradient, self).__call__(np.atleast_1d(x).ravel(order='F'), *args, **kwds)"),
+]
